@@ -233,7 +233,7 @@ class Atoms():
         a = v1.cross(v2)
         b = v2.cross(v3)
         # If direction > 0, angle is positive, else negative:
-        direction = v1[0] * v2[1] * v3[2] - v1[2] * v1[1] * v3[0] + v1[2] * v2[0] * v3[1] - v1[0] \
+        direction = v1[0] * v2[1] * v3[2] - v1[2] * v2[1] * v3[0] + v1[2] * v2[0] * v3[1] - v1[0] \
                     * v2[2] * v3[1] + v1[1] * v2[2] * v3[0] - v1[1] * v2[0] * v3[2]
         # angle between plane normals:
         ang = acos((a[0] * b[0] + a[1] * b[1] + a[2] * b[2]) / (
